@@ -34,7 +34,7 @@ PROFILES = {
     # mostly character classes with multi-byte members, used through closures / choices so that every class is tried on many
     # characters (members, non-members, neighbours in the encoding)
     "charclass": dict(p_unicode=0.75, w_char=8, w_string=3, w_struct=3, w_unit=0, w_alias=1, w_enum=1, nrules=(3, 6), p_ccheck=0.2, p_lookahead=0.2, p_memo=0.2),
-    "memo": dict(p_shared_prefix=0.35, p_memo=0.5, p_lookahead=0.2, nrules=(3, 7), p_check=0.3, p_ccheck=0.2, w_extern=2, w_char=2),
+    "memo": dict(p_shared_prefix=0.35, p_memo=0.5, p_lookahead=0.2, nrules=(3, 7), p_check=0.3, p_ccheck=0.2, w_extern=4, w_char=2),
     "memofail": dict(p_shared_prefix=0.5, w_alias=3, p_memo=1.0, p_probe=0.7, p_lookahead=0.15, w_extern=1, nrules=(3, 6), p_check=0.35, p_ccheck=0.2, w_char=2),
     "dupfields": dict(nrules=(2, 4), depth=4, small_fieldpool=3, p_multitype=0.85, w_struct=8, w_string=3, w_unit=0, w_alias=0,
                       w_enum=0, w_char=1, p_include=0.15, p_lookahead=0.03, p_noskip=0.1, dense_fields=True),
@@ -522,6 +522,13 @@ class Gen:
             return Grp(self.cho(depth - 1, mode, consumed))
         if x < 0.84 + p["p_lookahead"]:
             inner = self.part(depth - 1, "none", consumed)
+            if isinstance(inner, Ref) and inner.rule not in ("Whitespace",) and self.coin(0.4):
+                # peek, then parse: the rule is first tried inside a lookahead and then for real at the same position
+                real = Ref(inner.rule, self.r.choice(self.fieldpool), inner.rule != "char" and self.index.get(inner.rule, 99) <= self.cur_i) if (mode == "named" and self.coin(0.7)) else Ref(inner.rule)
+                if real.field and real.field not in self.used_fields:
+                    self.used_fields.append(real.field)
+                peek = Pos(Grp(Cho([Seq([Ref(inner.rule), self.lit()])]))) if self.coin(0.5) else Pos(Ref(inner.rule))
+                return Grp(Cho([Seq([peek, real])]))
             return Neg(inner) if self.coin(0.6) else Pos(inner)
         if x < 0.84 + p["p_lookahead"] + p["p_include"]:
             cands = [nm for nm in self.names[self.cur_i + 1:] if self.kinds[nm] in ("struct", "unit", "string")]
